@@ -1053,3 +1053,155 @@ def run(ctx, rep):  # noqa: F811
     rep.rule("R15.13", "QR factorisations whose R diagonal is used to count the active constraints are column-pivoted")
     r1512(ctx, rep)
     r1513(ctx, rep)
+
+
+# ---------------------------------------------------------------------------
+def r1514(ctx, rep):
+    """inner products that are combined in one formula are taken over the same
+    index set: sqrt(|s|^2 |g|^2 - (g's)^2) with |s|^2 over all components and
+    the other two over the free ones is not a Cauchy-Schwarz expression any
+    more (the rotation stops preserving the norm)"""
+    n = 0
+    for q in PUBLIC[:3]:
+        f = ctx.func(q)
+        cfg = ctx.cfg(f)
+        rd = cfg.reaching_defs()
+
+        def reduction(e):
+            """A[m] @ B[m] -> (A, B, m) ; A @ B -> (A, B, None)"""
+            if isinstance(e, ast.BinOp) and isinstance(e.op, ast.MatMult):
+                l, r = e.left, e.right
+                if isinstance(l, ast.Subscript) and isinstance(r, ast.Subscript) and isinstance(l.value, ast.Name) and isinstance(r.value, ast.Name) and norm(l.slice) == norm(r.slice):
+                    return (l.value.id, r.value.id, norm(l.slice))
+                if isinstance(l, ast.Name) and isinstance(r, ast.Name):
+                    return (l.id, r.id, None)
+            return None
+        for node in cfg.nodes:
+            if node.kind != "stmt" or not isinstance(node.ast, ast.Assign):
+                continue
+            v = node.ast.value
+            names = [x for x in ast.walk(v) if isinstance(x, ast.Name) and isinstance(x.ctx, ast.Load)]
+            reds = {}
+            for x in names:
+                ds = rd.get(node.id, {}).get(x.id)
+                if not ds or len(ds) != 1:
+                    continue
+                d = cfg.nodes[next(iter(ds))]
+                if d.kind == "stmt" and isinstance(d.ast, ast.Assign) and len(d.ast.targets) == 1:
+                    r_ = reduction(d.ast.value)
+                    if r_ is not None:
+                        reds[x.id] = (r_, d)
+            # the family: arrays that are restricted to an index set in this formula;
+            # products with other vectors (Hessian images, ...) are over all components by nature
+            fam_arrays = set()
+            for (a, b, m), _ in reds.values():
+                if m is not None:
+                    fam_arrays |= {a, b}
+            reds = {nm: v_ for nm, v_ in reds.items() if {v_[0][0], v_[0][1]} <= fam_arrays}
+            if len(reds) < 2:
+                continue
+            arrays = {}
+            for nm, ((a, b, m), d) in reds.items():
+                arrays.setdefault(frozenset((a, b)), []).append((nm, m, d))
+            # reductions over the same family of arrays (they share an operand)
+            fam = list(reds.items())
+            masks = {m for (_, _, m), _ in reds.values()}
+            shared = set.intersection(*[{a, b} for (a, b, _), _ in reds.values()]) if len(reds) >= 2 else set()
+            linked = any(({a1, b1} & {a2, b2}) for i, ((a1, b1, _), _) in enumerate(reds.values()) for j, ((a2, b2, _), _) in enumerate(reds.values()) if i < j)
+            if not linked:
+                continue
+            n += 1
+            desc = f"{f.local}:{node.line} `{norm(node.ast)[:60]}` combines {sorted(reds)}"
+            if len(masks) == 1:
+                rep.ok("R15.14", desc + f" over one index set {next(iter(masks))}")
+            else:
+                odd = [(nm, m, d) for nm, ((_, _, m), d) in reds.items()]
+                rep.bad("R15.14", desc)
+                rep.finding("R15.14", f, norm(node.ast)[:120], node.line,
+                            "the inner products combined here are taken over different index sets (" + ", ".join(f"{nm}: {m or 'all components'}" for nm, m, _ in odd) +
+                            "): the direction built from them is no longer orthogonal to the step on the free components and the rotated step leaves the trust region")
+    if n < 2:
+        raise AnalysisError(f"only {n} formulas combining inner products over an index set found in the solvers (floor 2)")
+
+
+_old_run15c = run
+
+
+def run(ctx, rep):  # noqa: F811
+    _old_run15c(ctx, rep)
+    rep.rule("R15.14", "inner products combined in one formula are taken over the same index set")
+    r1514(ctx, rep)
+
+
+# ---------------------------------------------------------------------------
+def stale_images(f, cfg):
+    """[(image def, vector, modifying stmt, use)]: I = M @ X ; X modified ; I read
+    again without being recomputed (straight-line within one block)"""
+    out = []
+    for block in [b for n_ in ast.walk(f.node) for b in (getattr(n_, "body", None), getattr(n_, "orelse", None)) if isinstance(b, list) and b and isinstance(b[0], ast.stmt)]:
+        for i, D in enumerate(block):
+            if not (isinstance(D, ast.Assign) and len(D.targets) == 1 and isinstance(D.targets[0], ast.Name)):
+                continue
+            v = D.value
+            if not (isinstance(v, ast.BinOp) and isinstance(v.op, ast.MatMult) and isinstance(v.left, ast.Name) and isinstance(v.right, ast.Name)):
+                continue
+            img, mat, vec = D.targets[0].id, v.left.id, v.right.id
+            if mat == vec:
+                continue
+            modified = None
+            for S in block[i + 1:]:
+                if isinstance(S, (ast.If, ast.For, ast.While, ast.Try, ast.With)) and not any(isinstance(x, ast.Name) and x.id in (img, vec) and (x.id == img or isinstance(x.ctx, ast.Store) or isinstance(getattr(x, "_parent", None), ast.Subscript) and isinstance(x._parent.ctx, ast.Store)) for x in ast.walk(S)) \
+                        and not any(isinstance(x, ast.AugAssign) and isinstance(x.target, ast.Name) and x.target.id == vec for x in ast.walk(S)):
+                    continue        # neither reads the image nor changes the vector: transparent
+                if isinstance(S, (ast.If, ast.For, ast.While, ast.Try, ast.With)):
+                    # stop at compound statements: path-sensitive reasoning is not attempted
+                    # unless the image is read inside and the vector was already modified
+                    if modified is not None and any(isinstance(x, ast.Name) and x.id == img and isinstance(x.ctx, ast.Load) for x in ast.walk(S)) \
+                            and not any(isinstance(x, ast.Name) and x.id == img and isinstance(x.ctx, ast.Store) for x in ast.walk(S)):
+                        out.append((D, vec, modified, S))
+                    break
+                stores = {x.id for x in ast.walk(S) if isinstance(x, ast.Name) and isinstance(x.ctx, ast.Store)}
+                sub_stores = set()
+                for t in (S.targets if isinstance(S, ast.Assign) else [S.target] if isinstance(S, ast.AugAssign) else []):
+                    b_ = t
+                    while isinstance(b_, ast.Subscript):
+                        b_ = b_.value
+                    if isinstance(b_, ast.Name) and b_ is not t:
+                        sub_stores.add(b_.id)
+                    if isinstance(S, ast.AugAssign) and isinstance(t, ast.Name):
+                        sub_stores.add(t.id)
+                if img in stores:
+                    break
+                if modified is not None and any(isinstance(x, ast.Name) and x.id == img and isinstance(x.ctx, ast.Load) for x in ast.walk(S)):
+                    out.append((D, vec, modified, S))
+                    break
+                if vec in sub_stores or (vec in stores and not isinstance(S, ast.AugAssign) and isinstance(S, ast.Assign) and not any(isinstance(x, ast.Name) and x.id == img for x in ast.walk(S))):
+                    modified = S
+    return out
+
+
+def r1515(ctx, rep):
+    n = 0
+    for q in PUBLIC[:3]:
+        f = ctx.func(q)
+        hits = stale_images(f, ctx.cfg(f))
+        imgs = [n_ for n_ in ast.walk(f.node) if isinstance(n_, ast.Assign) and isinstance(n_.value, ast.BinOp) and isinstance(n_.value.op, ast.MatMult) and isinstance(n_.value.left, ast.Name) and isinstance(n_.value.right, ast.Name)]
+        n += len(imgs)
+        for D, vec, mod, use in hits:
+            rep.bad("R15.15", f"{f.local}:{D.lineno} {norm(D)[:50]}")
+            rep.finding("R15.15", f, norm(D)[:100], D.lineno,
+                        f"`{norm(D)}` is computed before `{vec}` is changed at line {mod.lineno} (`{norm(mod)[:50]}`) and is read again at line {use.lineno} without being recomputed: "
+                        "the constraint slopes / residual updates belong to another vector, so the step length to the linear constraints is wrong and an inequality satisfied at the origin can be violated")
+        if not hits:
+            rep.ok("R15.15", f"{f.local}: {len(imgs)} matrix-vector images, none is used after its vector changed")
+    if n < 6:
+        raise AnalysisError(f"only {n} matrix-vector images found in the solvers (floor 6)")
+
+
+_old_run15d = run
+
+
+def run(ctx, rep):  # noqa: F811
+    _old_run15d(ctx, rep)
+    rep.rule("R15.15", "a matrix-vector image (A @ v) is not read after v was changed without recomputing it")
+    r1515(ctx, rep)
